@@ -809,6 +809,12 @@ func (e *Env) evalCall(c *ast.CallExpr) (Val, error) {
 			return Val{slCap(a.T), intT}, nil
 		case "String":
 			return Val{mk("Int", "str.len", a.T), intT}, nil
+		default:
+			if strings.HasPrefix(a.T.Sort, "TP_") {
+				fn := "zz_len_" + sortTag(a.T.Sort)
+				e.v.D.declFun(fn, []string{a.T.Sort}, "Int")
+				return Val{mk("Int", fn, a.T), intT}, nil
+			}
 		case "Ptr":
 			if mt, ok := e.v.substT(a.Ty).Underlying().(*types.Map); ok {
 				return Val{e.v.mapLen(e.st, a.T, mt), intT}, nil
@@ -936,6 +942,19 @@ func (e *Env) evalCall(c *ast.CallExpr) (Val, error) {
 				return Val{}, err
 			}
 			rng := tAnd(tCmp("<=", lo.T, q), tCmp("<", q, hi.T))
+			if name == "exists" && e.mode == 2 {
+				// proving an existential: offer the index terms the execution touched as witnesses
+				alts := []*Term{mk("Bool", "exists (("+qv+" Int))", tAnd(rng, body))}
+				for _, w := range e.st.idxTerms {
+					c3 := e.child()
+					c3.mode = 0
+					c3.vars[id.Name] = Val{w, intT}
+					if b3, err := c3.evalBool(c.Args[3]); err == nil {
+						alts = append(alts, tAnd(tCmp("<=", lo.T, w), tCmp("<", w, hi.T), b3))
+					}
+				}
+				return Val{tOr(alts...), boolT}, nil
+			}
 			if name == "forall" {
 				return Val{mk("Bool", "forall (("+qv+" Int))", tImp(rng, body)), boolT}, nil
 			}
